@@ -47,19 +47,41 @@ def rtCall (st : St) (s : State) (stop : RtPc) (out : State → String) : St × 
   | some s' => ({ st with s := some s' }, out s')
   | none => (st, "model-stuck")
 
+def newRt (st : St) (d q iv cap : String) : St × String :=
+  match parseDrv d, kvNat q "q", kvNat iv "iv", kvNat cap "cap" with
+  | some d, some q, some iv, some cap =>
+    if q = 0 || cap = 0 then (st, "bad-op") else
+    ({ s := some (init { drv := d, loop := .ext, q := q, maxInt := iv, nw := 100000, flushArms := true, rewake := true,
+                         sqcap := cap }),
+       nextW := 0 }, "ok")
+  | _, _, _, _ => (st, "bad-op")
+
+/-- k operations are submitted (`Driver::push`) from inside a poll -/
+def pushN : Nat → State → Option State
+  | 0, s => some s
+  | n + 1, s => match rtStep { s with rt := .poll .main } .push with
+    | some s' => pushN n s'
+    | none => none
+
+/-- `poll_with(Some(t))`, t > 0: run `Driver::poll` up to its wait; it returns at once iff `reset` said notified or
+the kernel object is signalled, otherwise after the timeout. The state afterwards is the same in this (external
+loop) configuration; only the verdict differs. -/
+def pollTimed (st : St) (s : State) : St × String :=
+  match rtUntil .wait 64 { s with rt := .reset } with
+  | none => (st, "model-stuck")
+  | some s1 =>
+    let woken := !s1.needWait || signal s1
+    rtCall st s1 .mainStart (fun _ => if woken then "poll=woken" else "poll=timeout")
+
 def step (st : St) (line : String) : St × String :=
   if line.startsWith "#case" then ({ s := none, nextW := 0 }, line.trimAscii.toString) else
   match words line, st.s with
-  | ["new", d, q, iv, _tasks], _ =>
-    match parseDrv d, kvNat q "q", kvNat iv "iv" with
-    | some d, some q, some iv =>
-      if q = 0 then (st, "bad-op") else
-      ({ s := some (init { drv := d, loop := .ext, q := q, maxInt := iv, nw := 100000, flushArms := true, rewake := true }),
-         nextW := 0 }, "ok")
-    | _, _, _ => (st, "bad-op")
+  | ["new", d, q, iv, _tasks], _ => newRt st d q iv "cap=16"
+  | ["new", d, q, iv, _tasks, cap], _ => newRt st d q iv cap
   | "stress" :: _, _ => (st, "round ok")
   | ["cancelprobe", _], _ => (st, "probe done")
   | ["wake"], some s => wakeCall st s .main
+  | ["wakex"], some s => wakeCall st s .main
   | ["twake", t], some s =>
     match t.toNat? with
     | some t => wakeCall st s (.task t)
@@ -71,6 +93,13 @@ def step (st : St) (line : String) : St × String :=
   | ["flush"], some s =>
     rtCall st { s with rt := .xarm, zero := false } .xwait (fun s' => if s'.zero then "flush=notified" else "flush=idle")
   | ["poll0"], some s => rtCall st { s with rt := .reset } .mainStart (fun _ => "ok")
+  | ["pollt", _ms], some s => pollTimed st s
+  | ["push", k], some s =>
+    match k.toNat? with
+    | some k => match pushN k s with
+      | some s' => ({ st with s := some s' }, "ok")
+      | none => (st, "model-stuck")
+    | none => (st, "bad-op")
   | ["fd"], some s => (st, if fdReadable s then "fd=readable" else "fd=not")
   | ["ring"], some s => (st, if ringReadable s then "ring=readable" else "ring=not")
   | ["clear"], some s => rtCall st { s with rt := .xclear } .reset (fun _ => "ok")
